@@ -1,37 +1,63 @@
 ---------------------------- MODULE Irreversible ----------------------------
 (***************************************************************************)
-(* Irreversibility of blocks under DPoS consensus                          *)
-(* (dpos/state/state.go: tryUpdateLastIrreversibleHeight, IsIrreversible;  *)
-(* blockchain/blockchain.go: connectBestChain's guard before               *)
-(* reorganizeChain, CkpManager.OnRollbackTo / OnBlockSaved around every    *)
+(* Irreversibility of blocks across consensus-mode transitions             *)
+(* (dpos/state/state.go: tryUpdateLastIrreversibleHeight, IsIrreversible,  *)
+(* processRevertToPOW, processRevertToDPOS and the POW -> DPOS switch at   *)
+(* the end of processTransactions; blockchain/blockchain.go:               *)
+(* connectBestChain's guard before reorganizeChain, the exported           *)
+(* ReorganizeChain, CkpManager.OnRollbackTo / OnBlockSaved around every    *)
 (* detach / attach).                                                       *)
 (*                                                                         *)
 (* All blocks are valid and carry unit work (the validity half is          *)
-(* Ledger.tla's subject).  The chain grows by Mine(p): the harness builds  *)
-(* a block on any known block p and hands it to ProcessBlock at once.      *)
+(* Ledger.tla's subject).  The chain grows by Mine(p, k): the harness      *)
+(* builds a block of kind k on any known block p and hands it to           *)
+(* ProcessBlock at once.  k = "toPOW" carries a RevertToPOW transaction,   *)
+(* k = "toDPOS" a RevertToDPOS transaction, "plain" neither.               *)
+(* ReorgCall(b) is BlockChain.ReorganizeChain(b) on a known side block.    *)
+(*                                                                         *)
 (* Heights are absolute: the behaviour starts at height Base on a common   *)
-(* prefix.  lih / dstart are State.LastIrreversibleHeight and              *)
-(* State.DPOSStartHeight; `saved` keeps, per main-chain block, the values  *)
-(* before it was connected (what the History rollback restores).           *)
+(* prefix of plain blocks.  st is the part of the arbiter State the        *)
+(* property talks about (LastIrreversibleHeight, DPOSStartHeight,          *)
+(* ConsensusAlgorithm, DPOSWorkHeight); `saved` keeps, per main-chain      *)
+(* block, the value before it was connected (what the History rollback     *)
+(* restores).                                                              *)
+(*                                                                         *)
+(* State.ProcessBlock collects its changes as closures (History.Append)    *)
+(* and runs them at History.Commit: every decision of one block is taken   *)
+(* against the state BEFORE the block, the closures then run in the order  *)
+(* they were appended.  Apply() transcribes exactly that.                  *)
 (***************************************************************************)
 EXTENDS Integers, Sequences, FiniteSets, TLC, Json
 
-CONSTANTS Base,        \* height of the common prefix tip
-          CRCOnly,     \* ChainParams.CRCOnlyDPOSHeight
-          RevertStart, \* DPoSConfiguration.RevertToPOWStartHeight
-          Irr,         \* state.IrreversibleHeight (6)
-          MaxBlocks,   \* total blocks mined
-          MaxSide,     \* blocks mined on something else than the tip
-          MaxForks     \* competing branches alive at the same time
+CONSTANTS Base,          \* height of the common prefix tip
+          CRCOnly,       \* ChainParams.CRCOnlyDPOSHeight
+          RevertStart,   \* DPoSConfiguration.RevertToPOWStartHeight
+          Irr,           \* state.IrreversibleHeight (6)
+          WorkInterval,  \* payload.WorkHeightInterval (10)
+          MaxBlocks,     \* total blocks mined
+          MaxSide,       \* blocks mined on something else than the tip
+          MaxForks,      \* competing branches alive at the same time
+          MaxForkDepth,  \* competing blocks are mined on parents at most this far below the tip
+          MaxModeTx,     \* blocks carrying a mode transaction
+          MaxReorgCalls, \* direct ReorganizeChain calls
+          ReorgGuardAtTip, \* TRUE: ReorganizeChain's guard uses the best height (repaired code)
+          KindSet,       \* block kinds the model mines (subset of Kinds)
+          KeepMaxLih     \* FALSE: code as is - a reorganisation restores the fork's irreversible
+                         \* height and the new branch may end with a LOWER one (open finding);
+                         \* TRUE: a design that never lets the recorded height fall
 
 VARIABLES parent,   \* parent[b] for b in 1..NB (0 = prefix tip)
+          kind,     \* kind[b]
           main,     \* active chain above the prefix
-          lih, dstart,
-          saved,    \* saved[i] = <<lih, dstart>> before main[i] was connected
-          nside,
+          st,       \* [lih, dstart, mode, workH]
+          saved,    \* saved[i] = st before main[i] was connected
+          nside, ncalls,
+          maxLih,   \* highest last irreversible height ever recorded (history variable)
           log
-vars == <<parent, main, lih, dstart, saved, nside, log>>
-view == <<parent, main, lih, dstart, saved, nside>>
+vars == <<parent, kind, main, st, saved, nside, ncalls, maxLih, log>>
+view == <<parent, kind, main, st, saved, nside, ncalls, maxLih>>
+
+Kinds == {"plain", "toPOW", "toDPOS"}
 
 NB == Len(parent)
 RECURSIVE HeightOf(_)
@@ -43,19 +69,51 @@ TipHeight == Base + Len(main)
 OnMain(b) == b = 0 \/ \E i \in 1..Len(main) : main[i] = b
 \* tips of competing branches
 Leaves == {b \in 1..NB : ~OnMain(b) /\ \A c \in 1..NB : parent[c] # b}
+NModeTx == Cardinality({b \in 1..NB : kind[b] # "plain"})
 
-\* tryUpdateLastIrreversibleHeight(h) in DPOS mode
-Upd(l, d, h) ==
-    IF h < RevertStart THEN <<l, d>>
-    ELSE IF l = 0 THEN <<h - Irr, h - Irr>>
-    ELSE IF h - d >= Irr THEN <<d + 1, d + 1>>
-    ELSE <<l, d>>
+Max(a, b) == IF a > b THEN a ELSE b
 
-\* IsIrreversible(curBlockHeight, detachNodesLen), consensus = DPOS
-IsIrreversible(cur, n, l) ==
+---------------------------------------------------------------------------
+(* State.ProcessBlock for a block of kind k at height h, pre-state s *)
+Apply(s, h, k) ==
+    LET \* processTransactions: processRevertToPOW / processRevertToDPOS
+        a1 == IF k = "toPOW" THEN [s EXCEPT !.mode = "POW", !.workH = 0]
+              ELSE IF k = "toDPOS" THEN [s EXCEPT !.workH = h + WorkInterval]
+              ELSE s
+        \* end of processTransactions: POW -> DPOS once the work height is reached
+        a2 == IF s.workH # 0 /\ h >= s.workH /\ s.mode = "POW" THEN [a1 EXCEPT !.mode = "DPOS"] ELSE a1
+        \* tryUpdateLastIrreversibleHeight(h)
+    IN  IF h < RevertStart THEN a2
+        ELSE IF s.lih = 0 THEN [a2 EXCEPT !.lih = h - Irr, !.dstart = h - Irr]
+        ELSE IF s.mode = "DPOS"
+             THEN LET e == IF s.workH # 0 /\ h = s.workH + 1 THEN [a2 EXCEPT !.dstart = h] ELSE a2
+                  IN IF h - s.dstart >= Irr
+                     THEN [e EXCEPT !.dstart = e.dstart + 1,
+                                    !.lih = IF KeepMaxLih THEN Max(e.lih, e.dstart + 1) ELSE e.dstart + 1]
+                     ELSE e
+        ELSE a2
+
+Zero == [lih |-> 0, dstart |-> 0, mode |-> "DPOS", workH |-> 0]
+RECURSIVE PlainTo(_)
+PlainTo(h) == IF h = 0 THEN Zero ELSE Apply(PlainTo(h - 1), h, "plain")
+
+\* what the transaction checkers let through in a block at height h on a branch whose state is s
+\* (RevertToPOWTransaction / RevertToDPOSTransaction HeightVersionCheck + SpecialContextCheck;
+\* the no-block time of the NoBlock revert is configured to 0)
+KindOK(s, h, k) ==
+    CASE k = "plain"  -> TRUE
+      [] k = "toPOW"  -> h >= RevertStart
+      [] k = "toDPOS" -> h >= RevertStart /\ s.mode = "POW" /\ ~(s.workH > h)
+
+\* state of the branch ending in block b (the fold of its path)
+RECURSIVE StateAt(_)
+StateAt(b) == IF b = 0 THEN PlainTo(Base) ELSE Apply(StateAt(parent[b]), HeightOf(b), kind[b])
+
+\* IsIrreversible(curBlockHeight, detachNodesLen)
+IsIrreversible(cur, n, s) ==
     IF cur <= CRCOnly THEN FALSE
-    ELSE IF cur - n <= l THEN TRUE
-    ELSE IF cur >= RevertStart THEN n >= Irr
+    ELSE IF cur - n <= s.lih THEN TRUE
+    ELSE IF cur >= RevertStart THEN s.mode = "DPOS" /\ n >= Irr
     ELSE n > Irr
 
 CommonPrefixLen(p, q) ==
@@ -63,80 +121,117 @@ CommonPrefixLen(p, q) ==
         S == {i \in 0..n : \A j \in 1..i : p[j] = q[j]}
     IN CHOOSE i \in S : \A k \in S : k <= i
 
-\* connect the blocks of `todo` (ids) one by one
+\* connect the blocks of `todo` (ids) one by one; kd gives the kind of an id
 RECURSIVE ConnectAll(_, _, _, _, _)
-ConnectAll(m, sv, l, d, todo) ==
-    IF todo = <<>> THEN [main |-> m, saved |-> sv, lih |-> l, dstart |-> d]
+ConnectAll(m, sv, s, todo, kd) ==
+    IF todo = <<>> THEN [main |-> m, saved |-> sv, st |-> s]
     ELSE LET h == Base + Len(m) + 1
-             u == Upd(l, d, h)
-         IN ConnectAll(Append(m, Head(todo)), Append(sv, <<l, d>>), u[1], u[2], Tail(todo))
+         IN ConnectAll(Append(m, Head(todo)), Append(sv, s), Apply(s, h, kd[Head(todo)]), Tail(todo), kd)
 
-Init == /\ parent = <<>> /\ main = <<>> /\ lih = 0 /\ dstart = 0 /\ saved = <<>>
-        /\ nside = 0 /\ log = <<>>
+Init == /\ parent = <<>> /\ kind = <<>> /\ main = <<>> /\ st = PlainTo(Base) /\ saved = <<>>
+        /\ nside = 0 /\ ncalls = 0 /\ maxLih = PlainTo(Base).lih /\ log = <<>>
 
-Log(p, verdict, det) ==
-    log' = Append(log, [act |-> "Mine", args |-> [id |-> NB + 1, parent |-> p],
+Log(act, args, verdict, det) ==
+    log' = Append(log, [act |-> act, args |-> args,
                         verdict |-> verdict, detached |-> det,
-                        main |-> main', lih |-> lih', height |-> Base + Len(main')])
+                        main |-> main', lih |-> st'.lih, mode |-> st'.mode,
+                        height |-> Base + Len(main')])
 
-(* mine a block on p and deliver it *)
-Mine(p) ==
+\* detach down to the fork with `path`, attach the rest of `path`
+Reorganize(path, kd) ==
+    LET f == CommonPrefixLen(main, path)
+        n == Len(main) - f
+        s0 == IF n = 0 THEN st ELSE saved[f + 1]
+        r == ConnectAll(SubSeq(main, 1, f), SubSeq(saved, 1, f), s0, SubSeq(path, f + 1, Len(path)), kd)
+    IN IF KeepMaxLih /\ r.st.lih < st.lih THEN [r EXCEPT !.st.lih = st.lih] ELSE r
+DetachedHeights(path) ==
+    LET f == CommonPrefixLen(main, path)
+    IN [i \in 1..(Len(main) - f) |-> Base + Len(main) + 1 - i]
+
+(* mine a block of kind k on p and deliver it *)
+Mine(p, k) ==
     /\ NB < MaxBlocks /\ p \in 0..NB
+    /\ KindOK(StateAt(p), HeightOf(p) + 1, k)
+    /\ k # "plain" => NModeTx < MaxModeTx
     /\ parent' = Append(parent, p)
+    /\ kind' = Append(kind, k)
+    /\ UNCHANGED ncalls
     /\ LET b == NB + 1
-           hb == HeightOf(p) + 1 IN
+           hb == HeightOf(p) + 1
+           args == [id |-> b, parent |-> p, kind |-> k] IN
        IF p = Tip
        THEN \* extends the best chain
-            LET r == ConnectAll(main, saved, lih, dstart, <<b>>) IN
-            /\ main' = r.main /\ saved' = r.saved /\ lih' = r.lih /\ dstart' = r.dstart
+            LET r == ConnectAll(main, saved, st, <<b>>, kind') IN
+            /\ main' = r.main /\ saved' = r.saved /\ st' = r.st
+            /\ maxLih' = Max(maxLih, r.st.lih)
             /\ nside' = nside
-            /\ Log(p, "extended", <<>>)
+            /\ Log("Mine", args, "extended", <<>>)
        ELSE /\ nside < MaxSide /\ nside' = nside + 1
-            \* competing blocks are only mined near the tip (older forks can never
-            \* win and only multiply isomorphic states)
-            /\ HeightOf(p) + Irr + 1 >= TipHeight
+            \* competing blocks are only mined near the tip
+            /\ HeightOf(p) + MaxForkDepth >= TipHeight
             \* either a competing branch grows, or a new one starts while fewer
             \* than MaxForks are alive
             /\ p \in Leaves \/ (OnMain(p) /\ Cardinality(Leaves) < MaxForks)
             /\ IF hb <= TipHeight
-               THEN /\ UNCHANGED <<main, saved, lih, dstart>>
-                    /\ Log(p, "side", <<>>)
-               ELSE LET path == [i \in 1..(Len(PathTo(p)) + 1) |->
-                                    IF i <= Len(PathTo(p)) THEN PathTo(p)[i] ELSE b]
-                        f == CommonPrefixLen(main, path)
-                        n == Len(main) - f
-                    IN IF IsIrreversible(TipHeight, n, lih)
-                       THEN /\ UNCHANGED <<main, saved, lih, dstart>>
-                            /\ Log(p, "refused", <<>>)
-                       ELSE \* detach n blocks (state rolled back to the fork point), attach the branch
-                            LET l0 == IF n = 0 THEN lih ELSE saved[f + 1][1]
-                                d0 == IF n = 0 THEN dstart ELSE saved[f + 1][2]
-                                r == ConnectAll(SubSeq(main, 1, f), SubSeq(saved, 1, f), l0, d0,
-                                                SubSeq(path, f + 1, Len(path)))
-                            IN /\ main' = r.main /\ saved' = r.saved /\ lih' = r.lih /\ dstart' = r.dstart
-                               /\ Log(p, "reorganized",
-                                      [i \in 1..n |-> Base + Len(main) + 1 - i])
+               THEN /\ UNCHANGED <<main, saved, st, maxLih>>
+                    /\ Log("Mine", args, "side", <<>>)
+               ELSE LET path == Append(PathTo(p), b)
+                        n == Len(main) - CommonPrefixLen(main, path)
+                    IN IF IsIrreversible(TipHeight, n, st)
+                       THEN /\ UNCHANGED <<main, saved, st, maxLih>>
+                            /\ Log("Mine", args, "refused", <<>>)
+                       ELSE LET r == Reorganize(path, kind')
+                            IN /\ main' = r.main /\ saved' = r.saved /\ st' = r.st
+                               /\ maxLih' = Max(maxLih, r.st.lih)
+                               /\ Log("Mine", args, "reorganized", DetachedHeights(path))
 
-Next == \E p \in 0..MaxBlocks : Mine(p)
+(* BlockChain.ReorganizeChain(b) for a known block off the active chain: no work comparison.
+   ReorgGuardAtTip = FALSE is the code before its repair: the guard was evaluated with the
+   height of b instead of the height of the tip. *)
+ReorgCall(b) ==
+    /\ ncalls < MaxReorgCalls /\ b \in 1..NB /\ ~OnMain(b)
+    /\ ncalls' = ncalls + 1
+    /\ UNCHANGED <<parent, kind, nside>>
+    /\ LET path == PathTo(b)
+           n == Len(main) - CommonPrefixLen(main, path)
+       IN IF IsIrreversible(IF ReorgGuardAtTip THEN TipHeight ELSE HeightOf(b), n, st)
+          THEN /\ UNCHANGED <<main, saved, st, maxLih>>
+               /\ Log("Reorg", [id |-> b], "refused", <<>>)
+          ELSE LET r == Reorganize(path, kind)
+               IN /\ main' = r.main /\ saved' = r.saved /\ st' = r.st
+                  /\ maxLih' = Max(maxLih, r.st.lih)
+                  /\ Log("Reorg", [id |-> b], "reorganized", DetachedHeights(path))
+
+Next == \/ \E p \in 0..MaxBlocks, k \in KindSet : Mine(p, k)
+        \/ \E b \in 1..MaxBlocks : ReorgCall(b)
 Spec == Init /\ [][Next]_vars
 
 ---------------------------------------------------------------------------
 (* C30 *)
-\* no reorganisation detaches a block at or below the recorded irreversible height
+Detached(i) == i > Len(main') \/ main'[i] # main[i]
+
+\* no reorganisation detaches a block at or below the irreversible height recorded when it happens
 NoDetachBelowIrreversible ==
-    [][\A i \in 1..Len(main) : (i > Len(main') \/ main'[i] # main[i]) => Base + i > lih]_vars
+    [][\A i \in 1..Len(main) : Detached(i) => Base + i > st.lih]_vars
+
+\* ... nor at or below any irreversible height the node ever recorded
+NoDetachOnceIrreversible ==
+    [][\A i \in 1..Len(main) : Detached(i) => Base + i > maxLih]_vars
 
 \* the irreversible height never decreases while the node moves forward
 IrreversibleMonotone ==
-    [][Len(main') > Len(main) => lih' >= lih]_vars
+    [][Len(main') > Len(main) => st'.lih >= st.lih]_vars
+\* the same for plain extensions only
+IrreversibleMonotoneOnExtension ==
+    [][(Len(main') > Len(main) /\ \A i \in 1..Len(main) : ~Detached(i)) => st'.lih >= st.lih]_vars
 
 \* a chain in DPoS mode never gives up Irr or more blocks
 NeverDeepReorg ==
-    [][TipHeight >= RevertStart =>
-         Cardinality({i \in 1..Len(main) : i > Len(main') \/ main'[i] # main[i]}) < Irr]_vars
+    [][(TipHeight >= RevertStart /\ st.mode = "DPOS") =>
+         Cardinality({i \in 1..Len(main) : Detached(i)}) < Irr]_vars
 
-\* irreversible height stays below the tip
-LihBelowTip == lih <= TipHeight
+\* the state is the fold of the active chain (rollback = exact inverse, C21's half of the bookkeeping)
+StateIsFold == ~KeepMaxLih => st = StateAt(Tip)
 
 Emit == PrintT(<<"TRACE", ToJson(log')>>)
 EmitLast == (Len(parent') = MaxBlocks) => PrintT(<<"TRACE", ToJson(log')>>)
